@@ -42,6 +42,7 @@ def run(ctx):
     R.rule("C17-R2", "launcher backends share count/mapping; hardware index spelling depends on the loop index; dims stored by matching index", floor=16)
     R.rule("C17-R3", "count and mapping use the same header fields", floor=5)
     R.rule("C17-R5", "closed form of the launch count and of the index mapping, per header configuration, equals the sequential loop's iteration count / k-th iterator value", floor=12)
+    R.rule("C17-R6", "a negative (wrapped) launch dimension makes the launch a no-op: an empty run-time range runs the body zero times", floor=3)
     R.rule("C17-R4", "header facts are derived from the matching operator flags (inclusive, direction, side)", floor=6)
 
     for name in ("getIterationCount", "makeDeclarationValue"):
@@ -221,6 +222,28 @@ def run(ctx):
     txts = [noid(render(kids(n)[1], False)) for n in vo]
     ok = len(vo) == 3 and any("leftIncrement" in t and "leftDecrement" in t for t in txts) and any("rightIncrement" in t and "rightDecrement" in t for t in txts) and any("addEq" in t and "subEq" in t for t in txts)
     R.ob("C17-R4", ok, hu.q, "accepted update operators: ++ -- (prefix/postfix), += -=", "%s:%d" % (hu.relfile, hu.d["line"]), "each branch accepts exactly its increment and decrement forms")
+
+    # ---- R6: the count of an empty range is negative (R5); it is stored into an unsigned dim --------------------------------------------
+    kp = ctx.program(["src/occa/internal/core/kernel.cpp", "src/types/dim.cpp"], thorough_all=False)
+    noop = kp.fn("occa::modeKernel_t::isNoop")
+    txt = noid(render(noop.d["body"], False)).replace(" ", "")
+    for dimv in ("outerDims", "innerDims"):
+        ok = "this->%s.hasNegativeEntries()" % dimv in txt and "this->%s.isZero()" % dimv in txt
+        R.ob("C17-R6", ok, noop.q, "%s: zero or negative entries -> no launch" % dimv, "%s:%d" % (noop.relfile, noop.d["line"]),
+             "isNoop() covers empty and negative counts" if ok else
+             "a negative iteration count (run-time empty loop) stored in the unsigned dim is launched as ~2^64 work groups")
+    hn = [f for f in kp.fns("occa::dim::hasNegativeBitSet")]
+    if not hn:
+        raise AnalysisBroken("dim::hasNegativeBitSet not found")
+    f0 = hn[0]
+    shifts = [n for n in f0.walk() if n["k"] == "BinaryOperator" and n.get("op") in ("<<", ">>")]
+    ok = False
+    for sh in shifts:
+        amt = noid(render(kids(sh)[1], False)).replace(" ", "")
+        if "sizeof" in amt and ("8*" in amt or "*8" in amt or "CHAR_BIT" in amt) and "-1" in amt:
+            ok = True
+    R.ob("C17-R6", ok, f0.q, "tests the sign bit (8 * sizeof(T) - 1)", "%s:%d" % (f0.relfile, f0.d["line"]),
+         "bit 8*sizeof(T)-1" if ok else "the bit tested is not the sign bit (sizeof(T) - 1 is bit 7 for a 64-bit entry): negative counts are not recognised")
 
 
 META = {
